@@ -43,6 +43,23 @@ func samplesFrom(results []*kernel.Result, max int) []any {
 	return out
 }
 
+// samplesOrFetch returns written-out sample histories; if the batch happened
+// to yield none (every traced run excluded), it runs one more small traced job
+// so that the evidence always carries concrete histories.
+func (e *Env) samplesOrFetch(traced []*kernel.Result, max int, mk func() *Job) []any {
+	out := samplesFrom(traced, max)
+	for attempt := 0; len(out) == 0 && attempt < 3 && mk != nil; attempt++ {
+		j := mk()
+		j.From += attempt * j.N
+		e.runJob(j)
+		out = samplesFrom(j.Results, max)
+	}
+	if out == nil {
+		out = []any{}
+	}
+	return out
+}
+
 // roundsUntil runs rounds of jobs until the budget is used or a violation of
 // `prop` has been seen.
 func (e *Env) roundsUntil(prop string, a *Agg, budget time.Duration, minRounds int, mk func(round int) []*Job) ([]*kernel.Result, error) {
@@ -145,19 +162,21 @@ func CheckSign(e *Env, prop string) (int, error) {
 		"sampled_distinct_nontrivial_histories": sampledNontrivial,
 		"enumerated_distinct_nontrivial_cases":  a.EnumDistinctNontrivial,
 		"rule":                                  rule,
-		"samples":                               samplesFrom(traced, 3),
-		"operations_executed":                   a.Ops,
-		"enumerated_fault_cases":                a.EnumCases,
-		"enumerated_layer_total":                a.EnumTotal,
-		"exhaustive":                            false,
-		"exhaustive_note":                       "the single-fault layer (enumerated_fault_cases == enumerated_layer_total) is enumerated completely on every run; the multi-fault histories are sampled",
-		"fault_kinds_fired":                     a.Faults,
-		"reach_probes":                          a.Probes,
-		"distinct_history_digests":              len(a.Digests),
-		"runs_by_world":                         a.ByWorld,
-		"simulated_time":                        fmt.Sprintf("%d logical steps (signing operations; this world has no clock)", a.Steps),
-		"runs_per_hour":                         int(float64(a.Runs) / time.Since(e.Start).Hours()),
-		"real_vs_stub":                          "real: all of /repo (secec, secec/bitcoin, curve, field, assembly), Go crypto, x/crypto, tuplehash. stub: the entropy device (io.Reader) and crypto/rand.Reader when rand == nil. model: sim/ref (math/big).",
+		"samples": e.samplesOrFetch(traced, 3, func() *Job {
+			return &Job{Bin: bin, Variant: "asm", World: "sign", Prop: prop, From: 0, N: 4, Extra: []string{"-trace"}}
+		}),
+		"operations_executed":      a.Ops,
+		"enumerated_fault_cases":   a.EnumCases,
+		"enumerated_layer_total":   a.EnumTotal,
+		"exhaustive":               false,
+		"exhaustive_note":          "the single-fault layer (enumerated_fault_cases == enumerated_layer_total) is enumerated completely on every run; the multi-fault histories are sampled",
+		"fault_kinds_fired":        a.Faults,
+		"reach_probes":             a.Probes,
+		"distinct_history_digests": len(a.Digests),
+		"runs_by_world":            a.ByWorld,
+		"simulated_time":           fmt.Sprintf("%d logical steps (signing operations; this world has no clock)", a.Steps),
+		"runs_per_hour":            int(float64(a.Runs) / time.Since(e.Start).Hours()),
+		"real_vs_stub":             "real: all of /repo (secec, secec/bitcoin, curve, field, assembly), Go crypto, x/crypto, tuplehash. stub: the entropy device (io.Reader) and crypto/rand.Reader when rand == nil. model: sim/ref (math/big).",
 		"violations_of_other_properties_seen_and_ignored": a.OtherProps,
 	}
 	ev := &Evidence{PropertyID: prop, Tier: e.Tier, Seed: int64(e.Seed), Level: level, Coverage: cov, WallS: time.Since(e.Start).Seconds(), Violations: out.violations,
